@@ -32,3 +32,38 @@ Definition run_gen (l : list Z) : list Z :=
       else bad_input
   | None => bad_input
   end.
+
+(* Case runner for the generator with COMPUTED class draws (kind 25).
+   input : num_pipelines, num_operators (Q), cpu_io_ratio (Q), waiting_ticks_mean, nticks,
+           interactive_prob, query_prob, batch_prob (three Q: the doubles of np.array([...])),
+           then the stream: a list of entries, each  2 u  (the uniform double choice drew, a Q)  or  1 mu x.
+   output: self.priority_probs (three Q), then exactly the output of kind 15.
+   Negative probabilities, a float sum that is not positive (numpy raises on NaN / negative p), a u outside
+   [0,1), a stream that does not fit the calls: bad_input. *)
+Definition dudraw : dec udraw :=
+  dlet k <- dZ;
+  if (k =? 2)%Z then (dlet u <- dQ; dret (UUniform u))
+  else if (k =? 1)%Z then (dlet mu <- dQ; dlet x <- dQ; dret (UNormal mu x))
+  else (fun _ => None).
+
+Definition udraw_ok (d : udraw) : bool :=
+  match d with
+  | UUniform u => Qle_bool 0%Q u && Qltb u 1%Q
+  | UNormal _ _ => true
+  end.
+
+Definition run_gen_u (l : list Z) : list Z :=
+  match run_dec (dlet np <- dZ; dlet nops <- dQ; dlet ratio <- dQ; dlet wmean <- dZ; dlet nticks <- dZ;
+                 dlet pi <- dQ; dlet pq <- dQ; dlet pb <- dQ;
+                 dlet ds <- dlist dudraw; dret (np, nops, ratio, wmean, nticks, [pi; pq; pb], ds)) l with
+  | Some (np, nops, ratio, wmean, nticks, user, ds) =>
+      if (0 <=? np)%Z && (0 <=? nticks)%Z && forallb (Qle_bool 0%Q) user && Qltb 0%Q (fsum user)
+         && forallb udraw_ok ds then
+        let P := {| g_np := Z.to_nat np; g_nops := nops; g_ratio := ratio; g_wmean := wmean |} in
+        match gen_run_u P user (Z.to_nat nticks) ds with
+        | Some (out, s) => flat_map eQ (prio_probs user) ++ eL (eL egpipe) out ++ eN (length (gs_draws s))
+        | None => bad_input
+        end
+      else bad_input
+  | None => bad_input
+  end.
